@@ -436,6 +436,29 @@ fn api_totality(src: &mut Src, st: &mut Stats, _env: &Env) -> CaseResult {
         }
         st.class("variable-accessors");
     }
+    // 5. Rust values of every shape handed to search() (the serde bridge must not panic)
+    {
+        let c1 = crate::gen_doc::gen_char(src);
+        let c2 = *src.pick(&['a', '\u{7f}', '\u{80}', '\u{7ff}', '\u{800}', '\u{ffff}', '\u{10000}', '\u{10ffff}', '€', '日', '😀']);
+        let s1 = label.clone();
+        let n = src.u64();
+        let f = f64::from_bits(src.u64());
+        let r = catch(std::panic::AssertUnwindSafe(move || {
+            let e = jmespath::compile("[@, type(@), to_string(@)]").unwrap();
+            let _ = e.search(c1).is_ok();
+            let _ = e.search(c2).is_ok();
+            let _ = e.search((c1, c2, s1.as_str(), n, n as i64, n as u8, f, f as f32)).is_ok();
+            let _ = e.search(vec![Some(c2), None]).is_ok();
+            let _ = e.search(std::collections::BTreeMap::from([(c2, s1.clone()), (c1, String::new())])).is_ok();
+            let _ = e.search(Some(())).is_ok();
+            let _ = e.search([n, n.wrapping_add(1)]).is_ok();
+            let _ = e.search(serde_json::json!({"k": [n, f.is_finite(), s1]})).is_ok();
+        }));
+        if let Err(p) = r {
+            return Err(Failure::new("api-totality", "panic", format!("search on a Rust value panicked: {}", p), json!({"chars": [c1.to_string(), c2.to_string()], "number": n})));
+        }
+        st.class("typed-inputs");
+    }
     if !label.is_ascii() && st.nontrivial(&format!("{}|{}|{}", label, offset, text)) {
         st.sample(|| json!({"label": label, "offset": offset, "tree_of": text}));
     }
